@@ -32,7 +32,7 @@ func runC17(r *Report) {
 		params := map[*ssa.Parameter]bool{}
 		for _, m := range muts {
 			for _, a := range argsOf(m.Call()) {
-				if po := paramOrigin(a); po != nil {
+				if po := contentOrigin(a); po != nil {
 					if _, isSlice := po.Type().Underlying().(*types.Slice); isSlice {
 						params[po] = true
 					}
@@ -245,6 +245,7 @@ func runC17(r *Report) {
 	ruleHandoff(r)
 	ruleOpenFlag(r, "simpledb")
 	ruleWalkSkipsRoot(r)
+	ruleByteAPICopies(r)
 	// the string flavour's own validation returns the same sentinel
 	if fn := p.Func("simpledb.DB.Put"); fn != nil {
 		key := rd + "/simpledb.DB.Put/same-sentinel"
@@ -290,7 +291,7 @@ func liftSites(sites []Site, owner *ssa.Function) []Site {
 
 // lenTestsOn: edges of `len(p) == 0`-style tests on parameter p in fn: (edges taken when empty, edges taken when non-empty).
 func lenTestsOn(fn *ssa.Function, p *ssa.Parameter) (zero, nonZero []Edge) {
-	isP := func(v ssa.Value) bool { return paramOrigin(v) == p }
+	isP := func(v ssa.Value) bool { return contentOrigin(v) == p }
 	for _, b := range liveBlocks(fn) {
 		if len(b.Instrs) == 0 {
 			continue
@@ -380,7 +381,7 @@ func condParams(c ssa.Value, fn *ssa.Function) ([]*ssa.Parameter, bool) {
 			walk(x.X)
 			walk(x.Y)
 		case *ssa.UnOp:
-			if po := paramOrigin(x); po != nil {
+			if po := contentOrigin(x); po != nil {
 				walk(po)
 			} else {
 				only = false
@@ -422,7 +423,7 @@ func evalLenPredicate(f *ssa.Function, idx int, empty bool) (bool, bool) {
 		}
 		for _, pa := range f.Params {
 			pp := pa
-			if zi, ok := lenZeroTest(c, func(v ssa.Value) bool { return paramOrigin(v) == pp }); ok {
+			if zi, ok := lenZeroTest(c, func(v ssa.Value) bool { return contentOrigin(v) == pp }); ok {
 				// condition true on successor 0; zero-length takes successor zi
 				if isEmpty(pp) {
 					return zi == 0, true
@@ -476,4 +477,130 @@ func evalLenPredicate(f *ssa.Function, idx int, empty bool) (bool, bool) {
 		}
 	}
 	return false, false
+}
+
+// R-byte-api-copies: the byte flavour of the API hands slices across the boundary of the database. The memstore keeps
+// what it is given until the next flush and GetBytes answers from it, while the WAL gets a marshalled copy: a caller
+// that reuses its key/value buffers after PutBytes returned, or writes into the slice GetBytes returned, changes what
+// the database holds without any call — the two API flavours disagree, and what a key reads as changes with a flush or
+// a restart. So PutBytes / DeleteBytes pass copies to the memstore, and GetBytes returns a copy of the memstore's value.
+func ruleByteAPICopies(r *Report) {
+	const rule = "byte-api-copies"
+	r.Rule(rule, 3, "PutBytes and DeleteBytes hand the memstore copies of their slice arguments (bytes.Clone / append to a fresh slice), and GetBytes returns a copy of the value it found in the memstore")
+	p := r.P
+	for _, k := range []string{"simpledb.DB.PutBytes", "simpledb.DB.DeleteBytes"} {
+		fn := r.NeedFunc(rule, k)
+		if fn == nil {
+			continue
+		}
+		key := rule + "/" + k
+		bad := ""
+		n := 0
+		for _, f := range closuresOf(fn) {
+			for _, m := range CallsIn(f, memMutate) {
+				for _, a := range argsOf(m.Call()) {
+					if _, isSl := a.Type().Underlying().(*types.Slice); !isSl {
+						continue
+					}
+					n++
+					if !isCopy(a) && !isCopy(boundValue(a)) {
+						bad = p.Pos(m.Pos())
+					}
+				}
+			}
+		}
+		switch {
+		case n == 0:
+			r.Missing(rule, key, "no memstore mutation with slice arguments found")
+		case bad != "":
+			r.Bad(rule, key, fn.Pos(), "a slice argument reaches the memstore mutation at "+bad+" without being copied: PutBytes(k=\"key-1\", v), refill the same buffers with \"key-2\", PutBytes again → Get(\"key-1\") is not found (the string flavour has both); after a crash and recovery both are there, because the WAL got private copies")
+		default:
+			r.OK(rule, key, fn.Pos(), fmt.Sprintf("%d slice argument(s), all copies", n))
+		}
+	}
+	if fn := r.NeedFunc(rule, "simpledb.DB.GetBytes"); fn != nil {
+		key := rule + "/simpledb.DB.GetBytes"
+		mg := CallsIn(fn, Suffix("RWMemstore.Get", "MemStoreI.Get"))
+		if len(mg) == 0 {
+			r.Missing(rule, key, "no memstore lookup in GetBytes")
+			return
+		}
+		var mv ssa.Value
+		for _, rf := range *mg[0].Instr.(ssa.Value).Referrers() {
+			if ex, ok := rf.(*ssa.Extract); ok && ex.Index == 0 {
+				mv = ex
+			}
+		}
+		leaks := false
+		for _, rs := range returnsOf(fn) {
+			v := rs.Instr.(*ssa.Return).Results[0]
+			cands := []ssa.Value{v}
+			if u, ok := v.(*ssa.UnOp); ok && u.Op == token.MUL && isCell(u.X) {
+				vals, _ := reachingStores(u)
+				cands = vals
+			}
+			for _, c := range cands {
+				if c == mv {
+					leaks = true
+				}
+			}
+		}
+		if leaks {
+			r.Bad(rule, key, mg[0].Pos(), "GetBytes returns the memstore's own slice: writing into the result changes what Get returns (\"value\" → \"Xalue\") until a restart brings the logged value back — or, if a flush comes first, the scribbled bytes are what gets persisted")
+		} else {
+			r.OK(rule, key, mg[0].Pos(), "the memstore's value is copied before it is returned")
+		}
+	}
+}
+
+// boundValue: for a FreeVar, the cell it is bound to in the enclosing function (so that stores made there are seen).
+func boundValue(v ssa.Value) ssa.Value {
+	u, ok := v.(*ssa.UnOp)
+	if !ok || u.Op != token.MUL {
+		return v
+	}
+	fv, ok := u.X.(*ssa.FreeVar)
+	if !ok {
+		return v
+	}
+	fn := fv.Parent()
+	par := fn.Parent()
+	if par == nil {
+		return v
+	}
+	idx := -1
+	for i, f := range fn.FreeVars {
+		if f == fv {
+			idx = i
+		}
+	}
+	var out ssa.Value = v
+	eachInstr(par, func(s Site) {
+		if mc, ok := s.Instr.(*ssa.MakeClosure); ok && mc.Fn == fn && idx >= 0 && idx < len(mc.Bindings) {
+			if al, isAl := mc.Bindings[idx].(*ssa.Alloc); isAl {
+				// all stores into the cell in the enclosing function
+				allCopy, n := true, 0
+				for _, ref := range *al.Referrers() {
+					if st, isSt := ref.(*ssa.Store); isSt && st.Addr == ssa.Value(al) {
+						n++
+						if _, isPar := st.Val.(*ssa.Parameter); isPar {
+							continue // the initial spill of the parameter, overwritten by the copy before the closure runs
+						}
+						if !isCopy(st.Val) {
+							allCopy = false
+						}
+					}
+				}
+				if n > 1 && allCopy {
+					// represent "is a copy" by returning any copying store value
+					for _, ref := range *al.Referrers() {
+						if st, isSt := ref.(*ssa.Store); isSt && st.Addr == ssa.Value(al) && isCopy(st.Val) {
+							out = st.Val
+						}
+					}
+				}
+			}
+		}
+	})
+	return out
 }
